@@ -31,6 +31,7 @@ char DICT_type;
 void *SCOPEfind(Scope s, char *name, int type) { (void)s; (void)type; g_sf_calls++; g_sf_name = name; DICT_type = g_sf_kind; return g_sf_result; }
 int LISTget_length(Linked_List l) { (void)l; return g_nargs; }
 struct Scope_ *FUNC_NVL, *FUNC_USEDIN;
+int g_warn_enabled; bool ERRORis_enabled(enum ErrorCode e) { (void)e; return g_warn_enabled != 0; }   /* -w switches: harness-chosen */
 struct Object OBJ[256];   /* the object-kind table (object.c), filled by the harness where needed */
 /* models for the identifier arm of EXP_resolve: no enumeration item of that name; list primitives */
 void *DICTlookup(Dictionary d, char *n) { (void)d; (void)n; return 0; }
